@@ -193,27 +193,24 @@ def run(ctx: Ctx) -> None:
     fp = repo.func("utils", "filter_pseudo_headers")
     wf = "utils:filter_pseudo_headers"
     src = norm(fp)
-    final = [n for n in walk_local(fp) if isinstance(n, ast.Assign) and norm(n.targets[0]) == "filtered_headers[0]"]
-    ok = len(final) == 1 and norm(final[0].value) == "(b'host', authority if authority is not None else host)" and not guard_atoms(final[0])
-    init = [n for n in walk_local(fp) if isinstance(n, (ast.Assign, ast.AnnAssign)) and dotted(n.targets[0] if isinstance(n, ast.Assign) else n.target) == "filtered_headers"]
-    ok = ok and len(init) == 1 and isinstance(init[0].value, ast.List) and len(init[0].value.elts) == 1
-    ctx.check("C01.R7", wf, "element 0 is (b'host', :authority if present else host)", ok, "host must come first and be taken from :authority when the client sent one", final[0] if final else fp)
-    au = [n for n in walk_local(fp) if isinstance(n, ast.Assign) and dotted(n.targets[0]) == "authority" and norm(n.value) == "value"]
-    ho = [n for n in walk_local(fp) if isinstance(n, ast.Assign) and dotted(n.targets[0]) == "host" and norm(n.value) == "value"]
-    ok = len(au) == 1 and ("name == b':authority'", True) in guard_atoms(au[0]) and len(ho) == 1 and ("name == b'host'", True) in guard_atoms(ho[0])
-    ctx.check("C01.R7", wf, "authority <- :authority, host <- host", ok, "authority/host extracted from the wrong header", fp)
-    ap = [c for c in calls(fp) if call_name(c) == "filtered_headers.append"]
-    ok = len(ap) == 1 and norm(arg(ap[0], 0)) == "(name, value)"
-    if ok:
-        gs = guards(ap[0])
+    from ..pred import eval_function as _evf7
+
+    table7 = [
+        ([], [(b"host", b"")]),
+        ([(b":method", b"GET"), (b":authority", b"a"), (b":path", b"/"), (b"accept", b"x")], [(b"host", b"a"), (b"accept", b"x")]),
+        ([(b"host", b"h"), (b"x", b"1"), (b"y", b"2")], [(b"host", b"h"), (b"x", b"1"), (b"y", b"2")]),
+        ([(b":authority", b"a"), (b"host", b"h")], [(b"host", b"a")]),
+        ([(b"host", b"h"), (b":authority", b"a")], [(b"host", b"a")]),
+        ([(b"y", b"2"), (b"x", b"1"), (b"y", b"3")], [(b"host", b""), (b"y", b"2"), (b"x", b"1"), (b"y", b"3")]),
+    ]
+    pname = fp.args.args[0].arg if fp.args.args else "headers"
+    for inp, want in table7:
         try:
-            keep = lambda nm: all(bool(eval_expr(t, {"name": nm, "value": b"v"})) == p for t, p in gs)
-            ok = keep(b"accept") and keep(b"x") and not keep(b":path") and not keep(b":authority") and not keep(b"host") and not keep(b":method")
-        except Unknown:
-            ok = False
-    rets = [n for n in walk_local(fp) if isinstance(n, ast.Return)]
-    ok = ok and len(rets) == 1 and norm(rets[0].value) == "filtered_headers"
-    ctx.check("C01.R7", wf, "regular headers appended in order; pseudo-headers and host not duplicated", ok, "header filtering keeps a pseudo-header, drops a regular header or reorders", ap[0] if ap else fp)
+            got = _evf7(fp, {pname: inp})
+            got = [tuple(x) for x in got] if isinstance(got, list) else got
+        except Exception as error:
+            got = f"raises / not evaluable: {error}"
+        ctx.check("C01.R7", wf, f"filter_pseudo_headers({inp})", got == want, f"gives {got}, expected {want}: host must come first, taken from :authority when the client sent one (else from host), pseudo-headers dropped, the other headers kept in order", fp)
 
     # ---------- R8
     a = repo.func("asyncio.task_group", "TaskGroup.spawn_app")
